@@ -31,6 +31,7 @@ NoHist == [entry |-> "fresh", prior |-> <<>>]
 ExtModes(kind) == {"none"} \cup (IF ExtOK(kind) THEN {"x"} ELSE {})
                            \cup (IF UnkOK(kind) THEN {"unk", "xu"} ELSE {})
 FullExt(kind) == {"none"} \cup (IF UnkOK(kind) THEN {"xu"} ELSE IF ExtOK(kind) THEN {"x"} ELSE {})
+FullExtMax(kind) == IF UnkOK(kind) THEN "xu" ELSE IF ExtOK(kind) THEN "x" ELSE "none"
 
 (* fields that take part in "full" sets: a $ref on the object itself would make every other field a sibling *)
 FullFields(kind) == {n \in Optional(kind) : FieldOf(kind, n).c # "pref"}
@@ -149,6 +150,14 @@ HistTargets ==
 RECURSIVE SeqsUpTo(_, _)
 SeqsUpTo(S, n) == IF n = 0 THEN {<<>>} ELSE LET shorter == SeqsUpTo(S, n - 1) IN shorter \cup {Append(q, x) : q \in shorter, x \in S}
 Hists(v) == {[entry |-> e, prior |-> q] : e \in HistEntries(v), q \in SeqsUpTo(PriorNames(v), MaxHist) \ {<<>>}}
+(* kind-level receivers (DocModel "Kind-level receivers"): per kind the bare object, the object with every field  *)
+(* (inline; as references where a field can be one) and -- for the wrapper types -- a reference object as input.   *)
+KindTargets ==
+   UNION {{Case("grow", kind, {}, "none"), Case("full", kind, FullFv(kind, "v"), FullExtMax(kind)),
+           Case("full", kind, FullFv(kind, "ref"), "none")} : kind \in {k \in Kinds : FullFields(k) # {}}}
+   \cup {Case("grow", kind, {}, "none") : kind \in {k \in Kinds : FullFields(k) = {}}}
+KHists(kind) == UNION {{[entry |-> e, prior |-> q] : q \in SeqsUpTo(KPriorNames(kind, e), MaxHist) \ {<<>>}} : e \in KindEntries(kind)}
+IsKindHist(h) == h.entry \in {"kind", "wrap"}
 
 InitCase ==
    /\ \/ \E kind \in Kinds : \E ext \in ExtModes(kind) : gcase = Case("grow", kind, {}, ext)
@@ -162,6 +171,7 @@ InitCase ==
 Init ==
    /\ \/ ghist = NoHist /\ InitCase
       \/ gcase \in HistTargets /\ ghist \in Hists(Ver(gcase.kind))
+      \/ gcase \in KindTargets /\ ghist \in KHists(gcase.kind)
    /\ gdoc = DocOf(gcase)
 
 Names(fv) == {p[1] : p \in fv}
@@ -186,8 +196,12 @@ Descr(cc) == IF cc.mode = "special" THEN cc
              ELSE [mode |-> cc.mode, kind |-> cc.kind, ext |-> cc.ext,
                    fv |-> {[f |-> p[1], var |-> p[2]] : p \in cc.fv}]
 (* a history case carries its prior documents (and the external resources of all of them) *)
-HistOf(v, h) == [entry |-> h.entry, prior |-> [i \in DOMAIN h.prior |-> [name |-> h.prior[i], doc |-> PriorDoc(v, h.prior[i])]]]
-AllDocs(v, h) == Av(<<gdoc>> \o [i \in DOMAIN h.prior |-> PriorDoc(v, h.prior[i])])
+(* ... a kind-level case its prior objects and the bare object under test (frag) *)
+HistOf(v, h) == IF IsKindHist(h)
+                THEN [entry |-> h.entry, prior |-> [i \in DOMAIN h.prior |-> [name |-> h.prior[i], doc |-> KPriorDoc(gcase.kind, h.prior[i])]],
+                      frag |-> Frag(gcase)]
+                ELSE [entry |-> h.entry, prior |-> [i \in DOMAIN h.prior |-> [name |-> h.prior[i], doc |-> PriorDoc(v, h.prior[i])]]]
+AllDocs(v, h) == IF IsKindHist(h) THEN gdoc ELSE Av(<<gdoc>> \o [i \in DOMAIN h.prior |-> PriorDoc(v, h.prior[i])])
 Emit == CSVWrite("%1$s", <<ToJson([d |-> Descr(gcase), ver |-> VerOf(gcase), doc |-> gdoc, ext |-> ExtOf(VerOf(gcase), AllDocs(VerOf(gcase), ghist)),
                                    hist |-> HistOf(VerOf(gcase), ghist)])>>, "cases.ndjson")
 =============================================================================
